@@ -255,7 +255,7 @@ bool IsRegexToken(char c, bool isFirstCharInString)
       case '=': case '^': case '+': case '$': case '{':  case '}': // note:  deliberately not including ':' or '-'
         return true;
 
-      case '<': case '~':   // these chars are only special if they are the first character in the string
+      case '<': case '~': case '`':  // these chars are only special if they are the first character in the string
          return isFirstCharInString;
 
       default:
